@@ -239,6 +239,9 @@ Proof.
   specialize (IH H). lia.
 Qed.
 
+Lemma mul_step a b m : a + 1 <= b -> a * m + m <= b * m.
+Proof. intros H. nia. Qed.
+
 Section Term.
 Variable opq : N -> obj -> bool.
 Variable oc : octx.
@@ -325,6 +328,10 @@ Proof.
     inversion E. subst. repeat split; [exact Hok|lia|lia|lia].
 Qed.
 
+Lemma W_alt_step o alts p i pend' idx rest : idx < len alts ->
+  W (((o, CRep (TDisj alts) p i) :: pend', S idx) :: rest) + 1 <= W (((o, CRep (TDisj alts) p i) :: pend', idx) :: rest).
+Proof. intros H. rewrite !W_cons. unfold set_w, front_w. cbn [fst snd]. lia. Qed.
+
 (* what get_next guarantees about its answer *)
 Definition gn_post (td : todo) (k : nat) (r : getres) (k' : nat) : Prop :=
   match r with
@@ -377,53 +384,446 @@ Proof.
     assert (Hpop_ok : forall j, todo_ok ((pend', j) :: rest)).
     { intros j. constructor; [eapply set_ok_tail; exact Hs | exact Hr]. }
     assert (Hpop_w : forall j, W ((pend', j) :: rest) + 1 <= W (((o, tcx) :: pend', idx) :: rest)).
-    { intros j. rewrite !W_cons. pose proof (set_w_tail (o, tcx) pend' idx j Hs) as HT. clear - HT. lia. }
+    { intros j. rewrite !W_cons. pose proof (set_w_tail (o, tcx) pend' idx j Hs) as HT. unfold pend in *. lia. }
     assert (Hpop_sz : forall j, todo_size ((pend', j) :: rest) < f).
     { intros j. rewrite todo_size_cons in *. simpl in *. lia. }
     (* plain return of the popped element *)
     assert (Hret : exists r k', Some (GNext (o, tcx) ((pend', idx) :: rest), S k) = Some (r, k') /\
                                 gn_post (((o, tcx) :: pend', idx) :: rest) k r k').
-    { eexists _, _. split; [reflexivity|]. simpl. repeat split; auto.
-      - specialize (Hpop_w idx). lia.
-      - discriminate.
-      - specialize (Hpop_w idx). lia. }
+    { eexists _, _. split; [reflexivity|]. unfold gn_post. specialize (Hpop_w idx).
+      split; [exact Hp|]. split; [apply Hpop_ok|]. split; [lia|]. split; [discriminate|lia]. }
     cbn [get_next].
     destruct tcx as [t p i | n].
-    2:{ destruct err; [apply Hunw; auto; apply Hpop_ok | exact Hret]. }
+    2:{ destruct err; [apply Hunw; [apply Hpop_ok | apply Hpop_sz | apply Hpop_w | lia] | exact Hret]. }
     destruct t as [ | p' | e sz | es | ents star | ents | alts];
-      try (destruct err; [apply Hunw; auto; apply Hpop_ok | exact Hret]).
+      try (destruct err; [apply Hunw; [apply Hpop_ok | apply Hpop_sz | apply Hpop_w | lia] | exact Hret]).
     (* a disjunct *)
     destruct (Nat.ltb 0 idx) eqn:Eidx.
     + destruct err; cbn [negb].
       * destruct (Nat.ltb idx (len alts)) eqn:Elt.
         -- apply Nat.ltb_lt in Elt.
            destruct (nth_error alts idx) as [c|] eqn:En; [|apply nth_error_None in En; unfold len in *; lia].
-           eexists _, _. split; [reflexivity|]. simpl.
+           eexists _, _. split; [reflexivity|]. unfold gn_post.
            assert (inU (o, c)).
            { destruct Hp as [Ho Hc]. split; [exact Ho|]. simpl.
              apply (UC_kids tc c0 (CRep (TDisj alts) p i)); [exact Hc|]. simpl. eapply nth_error_In; eauto. }
-           repeat split; auto.
-           ++ constructor; [|exact Hr]. intros q Hq. apply Hs. exact Hq.
-           ++ rewrite !W_cons. unfold set_w, front_w. simpl. lia.
-           ++ discriminate.
-           ++ rewrite !W_cons. unfold set_w, front_w. simpl. lia.
-        -- apply Hunw; auto. apply Hpop_ok.
+           pose proof (W_alt_step o alts p i pend' idx rest Elt) as HA. unfold pend in *.
+           split; [assumption|]. split; [constructor; [intros q Hq; apply Hs; exact Hq | exact Hr]|].
+           split; [lia|]. split; [discriminate|lia].
+        -- apply Hunw; [apply Hpop_ok | apply Hpop_sz | apply Hpop_w | lia].
       * destruct (IH ((pend', 0) :: rest) (S k) (Hpop_ok 0) (Hpop_sz 0)) as (r & k' & E & P).
         exists r, k'. split; [exact E|]. specialize (Hpop_w 0).
-        unfold gn_post in *. destruct r; [destruct P as (P1 & P2 & P3 & P4 & P5); split; [exact P1|]; split; [exact P2|]; split; [lia|]; split; [exact P4|lia] | lia | lia | lia].
-    + destruct err; [apply Hunw; auto; apply Hpop_ok|].
+        unfold gn_post in *. unfold pend in *. destruct r; [destruct P as (P1 & P2 & P3 & P4 & P5); split; [exact P1|]; split; [exact P2|]; split; [lia|]; split; [exact P4|lia] | lia | lia | lia].
+    + destruct err; [apply Hunw; [apply Hpop_ok | apply Hpop_sz | apply Hpop_w | lia]|].
       destruct alts as [|c alts'].
-      * eexists _, _. split; [reflexivity|]. simpl. lia.
-      * eexists _, _. split; [reflexivity|]. simpl.
+      * eexists _, _. split; [reflexivity|]. unfold gn_post. lia.
+      * eexists _, _. split; [reflexivity|]. unfold gn_post.
         apply Nat.ltb_ge in Eidx. assert (idx = 0) by lia. subst idx.
         assert (inU (o, c)).
         { destruct Hp as [Ho Hc]. split; [exact Ho|]. simpl.
           apply (UC_kids tc c0 (CRep (TDisj (c :: alts')) p i)); [exact Hc|]. simpl. left. reflexivity. }
-        repeat split; auto.
-        -- constructor; [|exact Hr]. intros q Hq. apply Hs. exact Hq.
-        -- rewrite !W_cons. unfold set_w, front_w. simpl. lia.
-        -- discriminate.
-        -- rewrite !W_cons. unfold set_w, front_w. simpl. lia.
+        pose proof (W_alt_step o (c :: alts') p i pend' 0 rest ltac:(simpl; lia)) as HA. unfold pend in *.
+        split; [assumption|]. split; [constructor; [intros q Hq; apply Hs; exact Hq | exact Hr]|].
+        split; [lia|]. split; [discriminate|lia].
 Qed.
 
+
+(* ---------- pushing work ---------- *)
+Lemma K_pos : 2 <= K.
+Proof. unfold K, bound_K. lia. Qed.
+Lemma WP_2K : 2 * K <= WP.
+Proof. unfold WP, bound_push. fold K. nia. Qed.
+Lemma WP_push : 1 + K * (FO + FC) <= WP.
+Proof. unfold WP, bound_push. fold K. nia. Qed.
+
+Lemma set_w_le set i : set_ok (set, i) -> set_w (set, i) <= 1 + K * len set.
+Proof.
+  intros H. unfold set_w. simpl. destruct set as [|p r]; [lia|].
+  assert (inU p) by (apply H; simpl; auto). pose proof (front_w_le p i H0). simpl. lia.
+Qed.
+
+Lemma return_check_spec td1 q td' : todo_ok td1 -> inU q -> return_check td1 q = Some td' ->
+  todo_ok td' /\ W td' <= W td1 + WP.
+Proof.
+  intros Hok Hq E. destruct td1 as [|[pending i] rest]; simpl in E; [discriminate|]. inversion E. subst td'.
+  inversion Hok as [|? ? Hs Hr]. subst. split.
+  - constructor; [|exact Hr]. intros p [Hp|Hp]; [subst; exact Hq | apply Hs; exact Hp].
+  - rewrite !W_cons. pose proof WP_2K. pose proof (front_w_le q i Hq). pose proof (front_w_pos q i).
+    unfold set_w. simpl. destruct pending as [|p' r]; [simpl; lia|].
+    pose proof (front_w_pos p' i). simpl. lia.
+Qed.
+
+Lemma filter_len_le {X} (f : X -> bool) l : len (filter f l) <= len l.
+Proof. unfold len. induction l as [|x r IH]; simpl; [lia|]. destruct (f x); simpl; lia. Qed.
+
+Lemma push_checks_spec ex td1 cs : todo_ok td1 -> (forall p, In p cs -> inU p) -> len cs <= FO + FC ->
+  todo_ok (push_checks ex td1 cs) /\ W (push_checks ex td1 cs) <= W td1 + WP.
+Proof.
+  intros Hok Hcs Hl. unfold push_checks.
+  destruct (filter (fun p => negb (have_examined ex p)) cs) as [|p r] eqn:E; [split; [exact Hok|lia]|].
+  assert (Hs : set_ok (p :: r, 0)).
+  { intros q Hq. apply Hcs. change (In q (p :: r)) in Hq. rewrite <- E in Hq. apply filter_In in Hq. apply Hq. }
+  split; [constructor; assumption|].
+  rewrite W_cons. pose proof (set_w_le _ _ Hs).
+  pose proof (filter_len_le (fun p => negb (have_examined ex p)) cs) as FL. rewrite E in FL.
+  pose proof WP_push. assert (K * len (p :: r) <= K * (FO + FC)) by (apply Nat.mul_le_mono_l; lia). lia.
+Qed.
+
+(* ---------- the children pushed by each arm are in the universe ---------- *)
+Lemma dict_get_in {V} (d : list (bytes * V)) k v : dict_get d k = Some v -> In v (List.map snd d).
+Proof.
+  induction d as [|[k' v'] r IH]; simpl; [discriminate|].
+  destruct (bytes_eqb k k'); intros E; [inversion E; left; reflexivity | right; apply IH; exact E].
+Qed.
+
+Lemma dict_ents_spec d ents e cs : dict_ents tc d ents = Some (e, cs) ->
+  (forall p, In p cs -> In (fst p) (List.map snd d) /\ In (snd p) (List.map ent_chk ents)) /\ len cs <= len ents.
+Proof.
+  revert e cs. induction ents as [|[k c opt] r IH]; intros e cs E; simpl in E.
+  - inversion E. split; [intros p []|simpl; lia].
+  - destruct (resolve tc c) as [rc|]; [|discriminate].
+    assert (Hrec : dict_ents tc d r = Some (e, cs) ->
+                   (forall p, In p cs -> In (fst p) (List.map snd d) /\ In (snd p) (List.map ent_chk (DEnt k c opt :: r))) /\
+                   len cs <= len (DEnt k c opt :: r)).
+    { intros E'. destruct (IH _ _ E') as [A B]. split; [|simpl in *; unfold len in *; simpl; lia].
+      intros p Hp. destruct (A p Hp). split; [assumption|right; assumption]. }
+    destruct (dict_get d k) as [v|] eqn:G.
+    + destruct opt.
+      * destruct (r_ty rc); try (apply Hrec; exact E);
+          (destruct (dict_ents tc d r) as [[e' cs']|] eqn:E'; [|discriminate]; inversion E; subst;
+           destruct (IH _ _ eq_refl) as [A B]; split; [|unfold len in *; simpl; lia];
+           intros q [Hq|Hq]; [subst q; simpl; split; [eapply dict_get_in; eauto | left; reflexivity]
+                             | destruct (A q Hq); split; [assumption | right; assumption]]).
+      * destruct (r_ty rc); try (apply Hrec; exact E);
+          (destruct (dict_ents tc d r) as [[e' cs']|] eqn:E'; [|discriminate]; inversion E; subst;
+           destruct (IH _ _ eq_refl) as [A B]; split; [|unfold len in *; simpl; lia];
+           intros q [Hq|Hq]; [subst q; simpl; split; [eapply dict_get_in; eauto | left; reflexivity]
+                             | destruct (A q Hq); split; [assumption | right; assumption]]).
+      * inversion E. split; [intros p []|simpl; lia].
+    + destruct opt; try (apply Hrec; exact E). inversion E. split; [intros p []|simpl; lia].
+Qed.
+
+Lemma stream_ents_spec d ents e cs : stream_ents tc d ents = Some (e, cs) ->
+  (forall p, In p cs -> In (fst p) (List.map snd d) /\ In (snd p) (List.map ent_chk ents)) /\ len cs <= len ents.
+Proof.
+  revert e cs. induction ents as [|[k c opt] r IH]; intros e cs E; simpl in E.
+  - inversion E. split; [intros p []|simpl; lia].
+  - destruct (resolve tc c) as [rc|]; [|discriminate].
+    destruct (stream_ents tc d r) as [[e' cs']|] eqn:E'; [|discriminate].
+    destruct (IH _ _ eq_refl) as [A B].
+    assert (Hsame : (forall p, In p cs' -> In (fst p) (List.map snd d) /\ In (snd p) (List.map ent_chk (DEnt k c opt :: r))) /\
+                    len cs' <= len (DEnt k c opt :: r)).
+    { split; [|unfold len in *; simpl; lia]. intros p Hp. destruct (A p Hp). split; [assumption|right; assumption]. }
+    destruct (dict_get d k) as [v|] eqn:G.
+    + destruct opt; try (inversion E; subst; exact Hsame);
+        (destruct (r_ty rc); try (inversion E; subst; exact Hsame);
+         (inversion E; subst; split; [|unfold len in *; simpl; lia];
+          intros q [Hq|Hq]; [subst q; simpl; split; [eapply dict_get_in; eauto | left; reflexivity]
+                            | destruct (A q Hq); split; [assumption | right; assumption]])).
+    + destruct opt; inversion E; subst; exact Hsame.
+Qed.
+
+Lemma star_ents_spec d spec sc sopt sty e cs : star_ents d spec sc sopt sty = (e, cs) ->
+  (forall p, In p cs -> In (fst p) (List.map snd d) /\ snd p = sc) /\ len cs <= len d.
+Proof.
+  revert e cs. induction d as [|[k v] r IH]; intros e cs E; simpl in E.
+  - inversion E. split; [intros p []|simpl; lia].
+  - assert (Hrec : star_ents r spec sc sopt sty = (e, cs) ->
+                   (forall p, In p cs -> In (fst p) (List.map snd ((k, v) :: r)) /\ snd p = sc) /\ len cs <= len ((k, v) :: r)).
+    { intros E'. destruct (IH _ _ E') as [A B]. split; [|unfold len in *; simpl; lia].
+      intros p Hp. destruct (A p Hp). split; [right; assumption|assumption]. }
+    destruct (existsb (bytes_eqb k) spec); [apply Hrec; exact E|].
+    destruct sopt.
+    + destruct sty; try (apply Hrec; exact E);
+        (destruct (star_ents r spec sc KReq _) as [e' cs'] eqn:E'; inversion E; subst;
+         destruct (IH _ _ eq_refl) as [A B]; split; [|unfold len in *; simpl; lia];
+         intros q [Hq|Hq]; [subst q; simpl; split; [left; reflexivity | reflexivity]
+                           | destruct (A q Hq); split; [right; assumption | assumption]]).
+    + destruct sty; try (apply Hrec; exact E);
+        (destruct (star_ents r spec sc KOpt _) as [e' cs'] eqn:E'; inversion E; subst;
+         destruct (IH _ _ eq_refl) as [A B]; split; [|unfold len in *; simpl; lia];
+         intros q [Hq|Hq]; [subst q; simpl; split; [left; reflexivity | reflexivity]
+                           | destruct (A q Hq); split; [right; assumption | assumption]]).
+    + inversion E. split; [intros p []|simpl; lia].
+Qed.
+
+
+(* ---------- the measure ---------- *)
+Definition UP : list pend := list_prod UO UC.
+Definition uncov (ex : list pend) : nat := len (filter (fun u => negb (have_examined ex u)) UP).
+Definition Phi (td : todo) (ex : list pend) : nat := uncov ex * (WP + 1) + W td.
+
+Lemma inU_UP p : inU p -> In p UP.
+Proof. destruct p as [o c]. intros [A B]. apply in_prod; assumption. Qed.
+
+Lemma filter_lt {X} (f g : X -> bool) l x :
+  (forall y, g y = true -> f y = true) -> In x l -> f x = true -> g x = false ->
+  len (filter g l) + 1 <= len (filter f l).
+Proof.
+  intros Hi Hx Hf Hg. unfold len. induction l as [|y r IH]; [destruct Hx|].
+  simpl. destruct Hx as [Hx|Hx].
+  - subst y. rewrite Hf, Hg. simpl.
+    clear IH. induction r as [|z r IH]; simpl; [lia|].
+    destruct (g z) eqn:Gz; [rewrite (Hi z Gz); simpl; lia | destruct (f z); simpl; lia].
+  - specialize (IH Hx). destruct (g y) eqn:Gy; [rewrite (Hi y Gy); simpl; lia | destruct (f y); simpl; lia].
+Qed.
+
+Lemma uncov_cons p ex : inU p -> have_examined ex p = false -> uncov (p :: ex) + 1 <= uncov ex.
+Proof.
+  intros Hp Hn. unfold uncov. apply (filter_lt _ _ UP p).
+  - intros y Hy. unfold have_examined in *. simpl in Hy. destruct (pend_eqb y p); [discriminate|exact Hy].
+  - apply inU_UP. exact Hp.
+  - rewrite Hn. reflexivity.
+  - unfold have_examined. simpl. rewrite pend_eqb_refl. reflexivity.
+Qed.
+
+(* ---------- one iteration of the work loop ---------- *)
+(* what every arm of the match delivers, starting from the todo [td1] returned by get_next *)
+Definition arm_ok (td1 : todo) (ex1 : list pend) (k1 : nat) (res : stepres * nat) : Prop :=
+  snd res = k1 /\
+  match fst res with
+  | SCont td' ex' _ => ex' = ex1 /\ todo_ok td' /\ W td' <= W td1 + WP
+  | SStop o => o <> Stuck
+  end.
+
+Lemma arm_cont td1 ex1 k1 e : todo_ok td1 -> arm_ok td1 ex1 k1 (SCont td1 ex1 e, k1).
+Proof. intros H. split; [reflexivity|]. simpl. split; [reflexivity|]. split; [exact H|lia]. Qed.
+Lemma arm_stop td1 ex1 k1 o : o <> Stuck -> arm_ok td1 ex1 k1 (SStop o, k1).
+Proof. intros H. split; [reflexivity|exact H]. Qed.
+Lemma arm_push td1 ex1 k1 cs e : todo_ok td1 -> (forall p, In p cs -> inU p) -> len cs <= FO + FC ->
+  arm_ok td1 ex1 k1 (SCont (push_checks ex1 td1 cs) ex1 e, k1).
+Proof.
+  intros H A B. destruct (push_checks_spec ex1 td1 cs H A B). split; [reflexivity|]. simpl. auto.
+Qed.
+
+Lemma in_combine_both {X Y} (l : list X) (m : list Y) x y : In (x, y) (combine l m) -> In x l /\ In y m.
+Proof. intros H. split; [eapply in_combine_l; eauto | eapply in_combine_r; eauto]. Qed.
+
+Lemma step_arms td1 ex k1 o tcx c :
+  todo_ok td1 -> td1 <> [] -> inU (o, tcx) -> resolve tc tcx = Some c ->
+  arm_ok td1 ((o, tcx) :: ex) k1 (step_arm opq oc tc td1 ((o, tcx) :: ex) k1 o tcx c).
+Proof.
+  intros Hok Hne [Ho Hc] Hres. unfold step_arm. set (ex1 := (o, tcx) :: ex).
+  set (cont := fun td' e => (SCont td' ex1 e, k1)). set (stop := fun x => (SStop x, k1)). simpl in Ho, Hc.
+  destruct (resolve_in tc c0 tcx c Hc Hres) as (Hrc & Hal & Hkids).
+  destruct c as [[t p] i]. cbn [r_ty r_pred r_ind fst snd] in *.
+  assert (Hcont : forall e, arm_ok td1 ex1 k1 (cont td1 e)) by (intros e; apply arm_cont; exact Hok).
+  assert (Hstop : forall x, x <> Stuck -> arm_ok td1 ex1 k1 (stop x)) by (intros x Hx; apply arm_stop; exact Hx).
+  assert (Hret : forall q, inU q ->
+            arm_ok td1 ex1 k1 (match return_check td1 q with Some td' => cont td' None | None => stop Panicked end)).
+  { intros q Hq. destruct (return_check td1 q) as [td'|] eqn:E; [|apply Hstop; discriminate].
+    destruct (return_check_spec td1 q td' Hok Hq E). split; [reflexivity|]. simpl. auto. }
+  assert (Hpush : forall cs e, (forall q, In q cs -> inU q) -> len cs <= FO + FC ->
+            arm_ok td1 ex1 k1 (cont (push_checks ex1 td1 cs) e)).
+  { intros cs e A B. apply arm_push; assumption. }
+  destruct o as [ | b | z | n d | s | s | s | n g | l | d | d content].
+  (* the reference *)
+  8:{ destruct t; destruct i; try apply Hcont;
+      (destruct (octx_get oc (n, g)) as [o'|] eqn:G; apply Hret;
+       [ split; [eapply UO_lookup; eauto | exact Hal] | split; [apply UO_null | exact Hc] ]). }
+  (* direct objects *)
+  all: destruct i; try apply Hcont.
+  all: destruct t as [ | p' | e sz | es | ents star | ents | alts]; try apply Hcont;
+       try (apply Hstop; discriminate);
+       try (match goal with |- context [prim_match ?o ?p] => destruct (prim_match o p) end; apply Hcont).
+  (* arrays: Array *)
+  1,3: (destruct (match sz with Some n => negb (Nat.eqb (len l) n) | None => false end); [apply Hcont|];
+        destruct (resolve tc e) as [re|]; [|apply Hstop; discriminate];
+        assert (Hpe : arm_ok td1 ex1 k1 (cont (push_checks ex1 td1 (List.map (fun x => (x, e)) l)) None));
+        [ apply Hpush;
+          [ intros q Hq; apply in_map_iff in Hq; destruct Hq as (x & Eq & Hx); subst q; split;
+            [ apply (UO_kids oc o0 (OArr l)); [exact Ho | exact Hx] | apply Hkids; left; reflexivity ]
+          | pose proof (fan_o_le (OArr l) Ho) as L; simpl in L; unfold len, pend in *; rewrite map_length; lia ]
+        | destruct (r_ty re); try exact Hpe; apply Hcont ]).
+  (* arrays: HetArray *)
+  1,2: (destruct (negb (Nat.eqb (len l) (len es))); [apply Hcont|];
+        apply Hpush;
+        [ intros [x y] Hq; apply in_combine_both in Hq; destruct Hq as [Hx Hy]; split;
+          [ apply (UO_kids oc o0 (OArr l)); [exact Ho | exact Hx] | apply Hkids; exact Hy ]
+        | pose proof (fan_c_le _ Hrc) as L; simpl in L; unfold len, pend in *;  rewrite combine_length; lia ]).
+  (* dictionaries *)
+  1,2: (destruct (dict_ents tc d ents) as [[[e|] cs]|] eqn:DE; [apply Hcont | | apply Hstop; discriminate];
+        destruct (dict_ents_spec d ents None cs DE) as [A B];
+        pose proof (fan_c_le _ Hrc) as LC; pose proof (fan_o_le (ODict d) Ho) as LO;
+        simpl in LC, LO; unfold len, pend in *; rewrite app_length, map_length in LC; rewrite map_length in LO;
+        assert (Hcs : forall q, In q cs -> inU q);
+        [ intros q Hq; destruct (A q Hq) as [A1 A2]; split;
+          [ apply (UO_kids oc o0 (ODict d)); [exact Ho | exact A1]
+          | apply Hkids; simpl; apply in_or_app; left; exact A2 ] |];
+        destruct star as [[sc sopt]|]; [|apply Hpush; [exact Hcs | lia]];
+        destruct (resolve tc sc) as [rs|]; [|apply Hstop; discriminate];
+        destruct (star_ents d (List.map ent_key ents) sc sopt (r_ty rs)) as [[e|] cs2] eqn:SE; [apply Hcont|];
+        destruct (star_ents_spec _ _ _ _ _ _ _ SE) as [A' B'];
+        apply Hpush;
+        [ intros q Hq; apply in_app_or in Hq; destruct Hq as [Hq|Hq]; [apply Hcs; exact Hq|];
+          destruct (A' q Hq) as [A1 A2]; split;
+          [ apply (UO_kids oc o0 (ODict d)); [exact Ho | exact A1]
+          | rewrite A2; apply Hkids; simpl; apply in_or_app; right; left; reflexivity ]
+        | unfold len, pend in *; rewrite app_length; simpl in LC; lia ]).
+  (* streams *)
+  1,2: (destruct (stream_ents tc d ents) as [[[e|] cs]|] eqn:DE; [apply Hcont | | apply Hstop; discriminate];
+        destruct (stream_ents_spec d ents None cs DE) as [A B];
+        pose proof (fan_c_le _ Hrc) as LC; simpl in LC; unfold len, pend in *; rewrite map_length in LC;
+        apply Hpush;
+        [ intros q Hq; destruct (A q Hq) as [A1 A2]; split;
+          [ apply (UO_kids oc o0 (OStream d content)); [exact Ho | exact A1]
+          | apply Hkids; simpl; exact A2 ]
+        | lia ]).
+Qed.
+
+
+Lemma step_spec td ex err k res k' : todo_ok td -> step opq oc tc td ex err k = (res, k') ->
+  match res with
+  | SCont td' ex' _ => todo_ok td' /\ Phi td' ex' + 1 <= Phi td ex /\ k' + 5 * Phi td' ex' <= k + 5 * Phi td ex
+  | SStop o => o <> Stuck /\ k' <= k + 3 * W td + 2
+  end.
+Proof.
+  intros Hok. unfold step.
+  destruct (get_next_spec (is_some err) (S (todo_size td)) td (S k) Hok (Nat.lt_succ_diag_r _)) as (r & k1 & E & P).
+  rewrite E. unfold gn_post in P. destruct r as [[o tcx] td1 | | | ].
+  - destruct P as (Hp & Hok1 & Hw & Hne & Hk).
+    destruct (resolve tc tcx) as [c|] eqn:R.
+    + destruct (have_examined ex (o, tcx)) eqn:HE.
+      * intros Eq. inversion Eq. subst. split; [exact Hok1|]. unfold Phi. lia.
+      * pose proof (step_arms td1 ex k1 o tcx c Hok1 Hne Hp R) as HA.
+        intros Eq. rewrite Eq in HA. destruct HA as [Hk' Hm]. simpl in Hk', Hm. subst k'.
+        destruct res as [td' ex' err'|x]; [|split; [exact Hm|lia]].
+        destruct Hm as (Hex & Hok' & Hw'). subst ex'.
+        pose proof (uncov_cons (o, tcx) ex Hp HE) as HU.
+        pose proof (mul_step _ _ (WP + 1) HU) as HM. unfold pend in *.
+        split; [exact Hok'|]. unfold Phi. lia.
+    + intros Eq. inversion Eq. subst. split; [discriminate|lia].
+  - intros Eq. destruct err; inversion Eq; subst; (split; [discriminate|lia]).
+  - intros Eq. destruct err; inversion Eq; subst; (split; [discriminate|lia]).
+  - intros Eq. inversion Eq. subst. split; [discriminate|lia].
+Qed.
+
+(* ---------- the loop ---------- *)
+Lemma run_terminates : forall n td ex err k, todo_ok td -> Phi td ex < n ->
+  fst (run opq oc tc n td ex err k) <> Stuck /\ snd (run opq oc tc n td ex err k) <= k + 5 * Phi td ex + 2.
+Proof.
+  induction n as [|n IH]; intros td ex err k Hok Hn; [lia|].
+  simpl. destruct (step opq oc tc td ex err k) as [res k'] eqn:E.
+  pose proof (step_spec td ex err k res k' Hok E) as S.
+  destruct res as [td' ex' err'|x].
+  - destruct S as (Hok' & Hphi & Hk). destruct (IH td' ex' err' k' Hok' ltac:(lia)) as [A B].
+    split; [exact A|lia].
+  - destruct S as [A B]. simpl. split; [exact A|]. unfold Phi. lia.
+Qed.
+
+Lemma Phi_init o c : inU (o, c) -> Phi [([(o, c)], 0)] [] < step_bound oc tc o0 c0.
+Proof.
+  intros H. unfold Phi, step_bound. fold UO UC FO FC. fold K WP.
+  assert (uncov [] <= len UO * len UC).
+  { unfold uncov. etransitivity; [apply filter_len_le|]. unfold UP, len, pend. rewrite prod_length. lia. }
+  assert (W [([(o, c)], 0)] <= 1 + K).
+  { simpl. unfold set_w. simpl. pose proof (front_w_le (o, c) 0 H). lia. }
+  assert (uncov [] * (WP + 1) <= len UO * len UC * (WP + 1)) by (apply Nat.mul_le_mono_r; assumption).
+  unfold K in *. lia.
+Qed.
 End Term.
+
+(* more fuel does not change the answer of a finished run *)
+Lemma run_mono opq oc tc : forall n m td ex err k, fst (run opq oc tc n td ex err k) <> Stuck -> n <= m ->
+  run opq oc tc m td ex err k = run opq oc tc n td ex err k.
+Proof.
+  induction n as [|n IH]; intros m td ex err k H L; [simpl in H; congruence|].
+  destruct m as [|m]; [lia|]. simpl in *.
+  destruct (step opq oc tc td ex err k) as [[td' ex' err'|x] k']; [|reflexivity].
+  apply IH; [exact H|lia].
+Qed.
+
+
+
+(* ---------- the theorems ---------- *)
+Theorem run_root_terminates opq oc tc o c n :
+  step_bound oc tc o c <= n ->
+  fst (run opq oc tc n [([(o, c)], 0)] [] None 0) <> Stuck /\
+  snd (run opq oc tc n [([(o, c)], 0)] [] None 0) <= 5 * step_bound oc tc o c + 2.
+Proof.
+  intros Hn.
+  assert (Hin : inU oc tc o c (o, c)) by (split; [apply UO_root | apply UC_root]).
+  assert (Hok : todo_ok oc tc o c [([(o, c)], 0)]).
+  { constructor; [|constructor]. intros p [Hp|[]]. subst p. exact Hin. }
+  pose proof (Phi_init oc tc o c o c Hin) as HP.
+  destruct (run_terminates opq oc tc o c _ _ [] None 0 Hok HP) as [A B].
+  rewrite (run_mono opq oc tc _ n _ _ _ _ A Hn). split; [exact A|lia].
+Qed.
+
+Theorem check_fuel_terminates opq oc tc o c r n :
+  resolve tc c = Some r -> step_bound oc tc o (norm_chk (rep_chk r)) <= n ->
+  fst (check_fuel opq oc tc n o c) <> Stuck /\
+  snd (check_fuel opq oc tc n o c) <= 5 * step_bound oc tc o (norm_chk (rep_chk r)) + 2.
+Proof. intros R Hn. unfold check_fuel. rewrite R. apply run_root_terminates. exact Hn. Qed.
+
+(* the verdict does not depend on the fuel once the bound is reached: running again gives the same answer *)
+Theorem check_fuel_deterministic opq oc tc o c r n m :
+  resolve tc c = Some r -> step_bound oc tc o (norm_chk (rep_chk r)) <= n -> n <= m ->
+  check_fuel opq oc tc m o c = check_fuel opq oc tc n o c.
+Proof.
+  intros R Hn Hm. unfold check_fuel. rewrite R. apply run_mono; [|exact Hm].
+  apply run_root_terminates. exact Hn.
+Qed.
+
+(* ---------- the binary-fuel loop of the executable entry is the same loop ---------- *)
+Section RunPos.
+Variable opq : N -> obj -> bool.
+Variable oc : octx.
+Variable tc : tctx.
+
+Fixpoint run_rs (n : nat) (s : rs) : rs :=
+  match n with O => s | S n' => run_rs n' (step_rs opq oc tc s) end.
+
+Lemma run_rs_stop n o k : run_rs n (RStop o k) = RStop o k.
+Proof. induction n; simpl; auto. Qed.
+
+Lemma run_rs_add a b s : run_rs (a + b) s = run_rs b (run_rs a s).
+Proof. revert s. induction a as [|a IH]; intros s; simpl; [reflexivity|apply IH]. Qed.
+
+Lemma run_pos_rs : forall p s, run_pos opq oc tc p s = run_rs (Pos.to_nat p) s.
+Proof.
+  induction p as [p IH|p IH|]; intros s; destruct s as [td ex err k|o k]; try (rewrite run_rs_stop; reflexivity).
+  - cbn [run_pos]. rewrite !IH. rewrite Pos2Nat.inj_xI.
+    replace (S (2 * Pos.to_nat p)) with (1 + (Pos.to_nat p + Pos.to_nat p)) by lia.
+    rewrite !run_rs_add. reflexivity.
+  - cbn [run_pos]. rewrite !IH. rewrite Pos2Nat.inj_xO.
+    replace (2 * Pos.to_nat p) with (Pos.to_nat p + Pos.to_nat p) by lia.
+    rewrite run_rs_add. reflexivity.
+  - reflexivity.
+Qed.
+
+Lemma run_rs_run : forall n td ex err k,
+  rs_result (run_rs n (RCont td ex err k)) = run opq oc tc n td ex err k.
+Proof.
+  induction n as [|n IH]; intros td ex err k; [reflexivity|].
+  simpl. destruct (step opq oc tc td ex err k) as [[td' ex' err'|o] k'].
+  - apply IH.
+  - rewrite run_rs_stop. reflexivity.
+Qed.
+
+Lemma check_N_fuel n o c : check_N opq oc tc n o c = check_fuel opq oc tc (N.to_nat n) o c.
+Proof.
+  unfold check_N, check_fuel. destruct (resolve tc c) as [r|]; [|reflexivity].
+  destruct n as [|p]; [reflexivity|]. simpl run_N. rewrite run_pos_rs. apply run_rs_run.
+Qed.
+End RunPos.
+
+Lemma step_bound_N_nat oc tc o c : N.to_nat (step_bound_N oc tc o c) = step_bound oc tc o c.
+Proof.
+  unfold step_bound_N, step_bound, bound_push, bound_K.
+  set (a := len (uni_objs oc o)). set (b := len (uni_chks tc c)).
+  set (fo := fan_o (uni_objs oc o)). set (fc := fan_c (uni_chks tc c)). lia.
+Qed.
+
+Theorem check_terminates opq oc tc o c r :
+  resolve tc c = Some r ->
+  fst (check opq oc tc o c) <> Stuck /\
+  snd (check opq oc tc o c) <= 5 * step_bound oc tc o (norm_chk (rep_chk r)) + 2.
+Proof.
+  intros R. unfold check. rewrite R. rewrite check_N_fuel, step_bound_N_nat.
+  apply (check_fuel_terminates opq oc tc o c r _ R). lia.
+Qed.
+
+(* with an undefined root name the answer is immediate *)
+Lemma check_unresolved opq oc tc o c : resolve tc c = None -> check opq oc tc o c = (SpecErr EUnknown, 0).
+Proof. intros R. unfold check. rewrite R. reflexivity. Qed.
